@@ -78,7 +78,7 @@ def plan(tier, seed):
 def mandatory_bins(tier):
     b = ["small_curve", "pair_add", "pair_add_with_infinity", "pair_add_equal_operands", "pair_add_inverse_operands", "rep_unreduced_negative_y", "rep_scaled", "rep_same_z", "rep_different_z",
          "double", "negate", "scalar_mul_all_0_to_2n_plus_1", "scalar_mul_precompute_path", "scalar_mul_without_order", "mul_add", "affine_point_arithmetic", "mixed_jacobi_affine", "equality_across_representations",
-         "anomalous_curve_n_eq_p", "curve_a_zero", "curve_a_minus_3", "curve_p_1_mod_4",
+         "anomalous_curve_n_eq_p", "long_lived_point_objects_reused_across_operations", "curve_a_zero", "curve_a_minus_3", "curve_p_1_mod_4",
          "shipped_curve", "kG_vs_openssl", "kQ_vs_openssl", "mul_add_vs_openssl", "negation_scale_combination", "scalar_n", "scalar_n_plus_1", "scalar_2^k", "scalar_2^k-1", "ecdh_vs_openssl", "ecdh_edge_scalar",
          "invalid_off_curve", "invalid_coordinate_ge_p", "invalid_congruent_coordinate_ge_p", "invalid_zero_zero", "invalid_other_curve_point", "invalid_point_object_of_sibling_curve", "invalid_infinity", "repository_suite_under_group_law_monitor"]
     return b
@@ -132,9 +132,20 @@ def run_small(ns, ctx, spec):
         cid = (p, a, b)
         rp = {"kind": "small", "curve": [p, a, b, n]}
 
+        pooled = (p + a + b) % 2 == 1
+        pool = {}
+        if pooled:
+            ctx.bin("long_lived_point_objects_reused_across_operations")
+
         def mk(E, rep):
             if E is None:
                 return INF if rep in ("aff", "negneg", "dbl") else PJ(curve, 0, 0, 1, n)
+            if pooled:
+                # the same objects take part in thousands of operations (in-place rescaling, cached tables ... must not matter)
+                k = (E, rep)
+                if k not in pool:
+                    pool[k] = reps_of(E, PJ, curve, p, n, half_of)[rep]
+                return pool[k]
             return reps_of(E, PJ, curve, p, n, half_of)[rep]
 
         # ---- every ordered pair, several representation combinations -----------------------------
